@@ -122,6 +122,13 @@ pub fn numval(v: f64, it: &mut Interner) -> String {
     }
 }
 
+/// integral values from 10^15 up to the u64 range may be printed as digits or in exponent form,
+/// depending on the formatter: instructions containing one are kept outside the modelled fragment
+pub fn awkward(v: f64) -> bool {
+    let v = v.abs();
+    v.fract() == 0.0 && v >= 1e15 && v < 1.9e19
+}
+
 /// One token in the `Debug` rendering of `quil_rs::verif::lex_debug` -> Gallina `tok`.
 pub fn tok_to_coq(dbg: &str, it: &mut Interner) -> Option<String> {
     let inner = |prefix: &str| -> Option<&str> {
@@ -266,6 +273,9 @@ pub fn expr(e: &Expression, it: &mut Interner) -> Option<String> {
             format!("(EInfix {} {o} {})", expr(&x.left, it)?, expr(&x.right, it)?)
         }
         Expression::Number(c) => {
+            if awkward(c.re) || awkward(c.im) {
+                return None;
+            }
             if c.im == 0.0 && !c.im.is_sign_negative() && c.re >= 0.0 {
                 format!("(ENum false {})", numval(c.re, it))
             } else if c.re == 0.0 && !c.re.is_sign_negative() && c.im > 0.0 {
@@ -283,23 +293,29 @@ pub fn expr(e: &Expression, it: &mut Interner) -> Option<String> {
     })
 }
 
-fn operand_a(o: &ArithmeticOperand, it: &mut Interner) -> String {
-    match o {
+fn operand_a(o: &ArithmeticOperand, it: &mut Interner) -> Option<String> {
+    if matches!(o, ArithmeticOperand::LiteralReal(v) if awkward(*v)) {
+        return None;
+    }
+    Some(match o {
         ArithmeticOperand::LiteralInteger(z) => format!("(OInt ({z})%Z)"),
         ArithmeticOperand::LiteralReal(v) => {
             format!("(OReal {} {})", v.is_sign_negative(), numval(v.abs(), it))
         }
         ArithmeticOperand::MemoryReference(m) => format!("(OMem {})", memref(m, it)),
-    }
+    })
 }
-fn operand_c(o: &ComparisonOperand, it: &mut Interner) -> String {
-    match o {
+fn operand_c(o: &ComparisonOperand, it: &mut Interner) -> Option<String> {
+    if matches!(o, ComparisonOperand::LiteralReal(v) if awkward(*v)) {
+        return None;
+    }
+    Some(match o {
         ComparisonOperand::LiteralInteger(z) => format!("(OInt ({z})%Z)"),
         ComparisonOperand::LiteralReal(v) => {
             format!("(OReal {} {})", v.is_sign_negative(), numval(v.abs(), it))
         }
         ComparisonOperand::MemoryReference(m) => format!("(OMem {})", memref(m, it)),
-    }
+    })
 }
 fn operand_b(o: &BinaryOperand, it: &mut Interner) -> String {
     match o {
@@ -348,7 +364,7 @@ pub fn instr(i: &Instruction, it: &mut Interner) -> Option<String> {
                 ArithmeticOperator::Multiply => "CMul",
                 ArithmeticOperator::Divide => "CDiv",
             };
-            format!("IArith {c} {} {}", memref(&x.destination, it), operand_a(&x.source, it))
+            format!("IArith {c} {} {}", memref(&x.destination, it), operand_a(&x.source, it)?)
         }
         Instruction::BinaryLogic(x) => {
             let c = match x.operator {
@@ -373,7 +389,7 @@ pub fn instr(i: &Instruction, it: &mut Interner) -> Option<String> {
                 "ICmp {c} {} {} {}",
                 memref(&x.destination, it),
                 memref(&x.lhs, it),
-                operand_c(&x.rhs, it)
+                operand_c(&x.rhs, it)?
             )
         }
         Instruction::UnaryLogic(x) => {
@@ -465,7 +481,7 @@ pub fn instr(i: &Instruction, it: &mut Interner) -> Option<String> {
             "IStore {} {} {}",
             ident(&s.destination, it),
             memref(&s.offset, it),
-            operand_a(&s.source, it)
+            operand_a(&s.source, it)?
         ),
         Instruction::Measurement(m) => format!(
             "IMeasure {} {} {}",
@@ -479,7 +495,7 @@ pub fn instr(i: &Instruction, it: &mut Interner) -> Option<String> {
                 None => "None".into(),
             }
         ),
-        Instruction::Move(m) => format!("IMove {} {}", memref(&m.destination, it), operand_a(&m.source, it)),
+        Instruction::Move(m) => format!("IMove {} {}", memref(&m.destination, it), operand_a(&m.source, it)?),
         Instruction::Pragma(p) => format!(
             "IPragma {} [{}] {}",
             ident(&p.name, it),
